@@ -301,7 +301,8 @@ def implied_need_spec(sn: Snapshot) -> dict[int, int]:
         outs = regular_outputs(i)
         if any(o in sn.targets for o in outs):
             val = max(val, Need.TARGET.value)
-        elif s["need"] == Need.DEFAULT.value and any(o.startswith(d) for o in outs for d in sn.target_dirs):
+        elif s["need"] == Need.DEFAULT.value and any(d == "./" or o.startswith(d) for o in outs for d in sn.target_dirs):
+            # (the project root, spelled "./" as a directory target, contains every label)
             val = max(val, Need.TARGET.value)
         for _, f in sn.sinks(i):
             for _, c in sn.sinks(f):
